@@ -78,14 +78,14 @@ Section EquivExtSlice.
   Ltac evs := cbv -[Z.add Z.sub Z.mul Z.div Z.modulo Z.eqb Z.ltb Z.leb Z.max Z.min Z.land Z.to_nat Z.of_nat W64 ISIZE_MAX
                   release esz ealign needs_drop is_pow2 layout_ok
                   is_default len capacity alignment vec_handle hdr_block reserve
-                  clone_elem push push_clones
+                  clone_elem push push_clones with_capacity_body
                   get_block put_block set_handle
                   nth_error heap vecs].
   (* for the one statement that takes the length of the slice *)
   Ltac evl := cbv -[Z.add Z.sub Z.mul Z.div Z.modulo Z.eqb Z.ltb Z.leb Z.max Z.min Z.land Z.to_nat Z.of_nat W64 ISIZE_MAX
                   release esz ealign needs_drop is_pow2 layout_ok
                   is_default len capacity alignment vec_handle hdr_block reserve
-                  clone_elem push push_clones List.length
+                  clone_elem push push_clones with_capacity_body List.length
                   get_block put_block set_handle
                   nth_error heap vecs].
 
@@ -161,5 +161,96 @@ Section EquivExtSlice.
     change (112 + F)%nat with (S (40 + (71 + F))).
     rewrite (loop_equivS v (VCtor "Slice" vs) _ _ es vs (71 + F)%nat s1 Evs) by (unfold elem in *; lia).
     destruct (push_clones cfg ncap v es s1) as [[u'| | | | |] s2]; cbv [after_loopS]; try reflexivity.
+  Qed.
+
+  (* ================= impl From<&[T]> for MiniVec<T> (src/impl/from.rs) =================
+     `let mut v = MiniVec::with_capacity(s.len()); for x in s { v.push(x.clone()) }; v` as written: a
+     new object of the world with room for the slice, the same loop, the object returned.
+     Machine.from_slice is this body with the name of the new vector given and Rust's unwinding glue
+     (`building`: the local `v` is dropped when a clone or a push unwinds). *)
+  Definition from_slice_body (src : list elem) : M nat :=
+    w <- with_capacity_body cfg (Z.of_nat (List.length src)) ;; push_clones cfg ncap w src ;;; ret w.
+
+  Definition WHFS : stmt :=
+    match fn_body from__MiniVec__from_ast with
+    | Blk [_; SExpr (EBlock (Blk [_; _; w] _))] _ => w
+    | _ => SForeign "no loop"
+    end.
+  Definition ENVFS (w : nat) (sl0 : val) (vs : list val) (go : bool) : env :=
+    [("__go", VBool go); ("__it", VCtor "Slice" vs); ("v", VObj w); ("s", sl0)].
+
+  Definition after_loopFS (K : env -> state -> AnsM) (w : nat) (sl0 : val) (r : res unit * state) : AnsM :=
+    match r with
+    | (Val _, s') => K (ENVFS w sl0 [] false) s'
+    | (Panicking, s') => (Panic, s')
+    | (UB u, s') => (Fail (FUB u), s')
+    | (AllocAbort x y, s') => (Fail (FAllocAbort x y), s')
+    | (Abort, s') => (Fail FAbort, s')
+    | (OutOfFuel, s') => (Fail FNoFuel, s')
+    end.
+
+  Lemma loop_equivFS w sl0 kr K : forall es vs F s,
+    vs = map VInt es ->
+    (List.length es <= F)%nat ->
+    xstmt (S (40 + F)) WHFS (ENVFS w sl0 vs true) s kr K = after_loopFS K w sl0 (push_clones cfg ncap w es s).
+  Proof.
+    induction es as [|e es IH]; intros vs F s Evs HF; subst vs; cbn [map].
+    - cbv [WHFS from__MiniVec__from_ast fn_body]. rewrite exec_while.
+      match goal with |- context [xstmt (40 + F) ?x] => change x with WHFS end.
+      remember (xstmt (40 + F) WHFS) as REC eqn:EREC.
+      cbn [push_clones]. cbv [ENVFS after_loopFS ret].
+      evs. subst REC.
+      change (40 + F)%nat with (S (39 + F)).
+      cbv [WHFS from__MiniVec__from_ast fn_body]. rewrite exec_while.
+      remember (xstmt (39 + F)) as REC eqn:EREC.
+      evs. reflexivity.
+    - destruct F as [|F]; [simpl in HF; lia|].
+      remember (map VInt es) as vs' eqn:Evs.
+      cbv [WHFS from__MiniVec__from_ast fn_body]. rewrite exec_while.
+      match goal with |- context [xstmt (40 + S F) ?x] => change x with WHFS end.
+      remember (xstmt (40 + S F) WHFS) as REC eqn:EREC.
+      cbn [push_clones]. cbv [ENVFS after_loopFS bind ret] in *.
+      evs. red1.
+      repeat first
+        [ reflexivity
+        | match goal with
+          | |- REC _ ?s1 _ _ = _ =>
+              subst REC; change (40 + S F)%nat with (S (40 + F)); apply (IH vs' F s1 eq_refl); simpl in HF; lia
+          end
+        | step; known ].
+  Qed.
+
+  Definition run_from_slice (fuel : nat) (es : list elem) (s : state) : AnsM :=
+    @eval_fn mfail state cfg NOF P fuel from__MiniVec__from_ast [slice_val es] s.
+
+  Theorem from_slice_equiv es s F :
+    (List.length es <= F)%nat ->
+    run_from_slice (FUEL + F) es s = lift_m (from_slice_body es) VObj s.
+  Proof.
+    intros HF.
+    unfold run_from_slice, eval_fn, slice_val.
+    assert (Hlen : List.length (map VInt es) = @List.length Z es) by apply map_length.
+    remember (map VInt es) as vs eqn:Evs.
+    cbv [from__MiniVec__from_ast fn_body fn_params FUEL combine rev app].
+    change (120 + F)%nat with (S (119 + F)). rewrite exec_block_S.
+    unfold lift_m, from_slice_body. cbv [bind ret].
+    remember (push_clones cfg ncap) as PC eqn:EPC.
+    change (119 + F)%nat with (S (118 + F)).
+    next_stmt K1 EK1. evl. red1. rewrite Hlen.
+    destruct (with_capacity_body cfg (Z.of_nat (@List.length Z es)) s) as [[w| | | | |] s1] eqn:Er; try reflexivity.
+    subst K1. change (118 + F)%nat with (S (117 + F)).
+    rewrite exec_stmts_cons. change (117 + F)%nat with (S (116 + F)). rewrite exec_sexpr_block.
+    change (116 + F)%nat with (S (115 + F)). rewrite exec_block_S.
+    change (115 + F)%nat with (S (114 + F)).
+    next_stmt K2 EK2. evs. subst K2. change (114 + F)%nat with (S (113 + F)).
+    next_stmt K3 EK3. evs. subst K3. change (113 + F)%nat with (S (112 + F)).
+    rewrite exec_stmts_cons.
+    match goal with |- context [xstmt (112 + F) ?x] => change x with WHFS end.
+    change [("__go", VBool true); ("__it", VCtor "Slice" vs); ("v", VObj w); ("s", VCtor "Slice" vs)]
+      with (ENVFS w (VCtor "Slice" vs) vs true).
+    change (112 + F)%nat with (S (40 + (71 + F))).
+    rewrite (loop_equivFS w (VCtor "Slice" vs) _ _ es vs (71 + F)%nat s1 Evs) by (unfold elem in *; lia).
+    subst PC.
+    destruct (push_clones cfg ncap w es s1) as [[u'| | | | |] s2]; cbv [after_loopFS]; try reflexivity.
   Qed.
 End EquivExtSlice.
